@@ -158,7 +158,7 @@ func c19eval(r *vx.R, c c19case) {
 	for _, i := range c.Reject {
 		rejectDraw[i] = true
 	}
-	for draws := 0; draws < 64; draws++ {
+	for draws := 0; draws < 1100; draws++ {
 		buf := make([]byte, 32)
 		_, rerr := io.ReadFull(sim, buf)
 		if rerr != nil {
@@ -231,7 +231,7 @@ func c19eval(r *vx.R, c c19case) {
 }
 
 func TestVX_C19(t *testing.T) {
-	r := vx.Begin("C19", "failing-rand", "scripted io.Reader: per Read call one answer from {full; short k (k in 1,16,31); zero bytes nil; k bytes+error (k in 0,1,16,31); k bytes+EOF; full+error}. Enumerated: every position of the first failure = (draw index j in 0..3 after j rejected candidates from {0,n,n-1(keygen),max}) x (byte offset 0,1,16,31 via a preceding short read, and full+error) x failure kind; every script of <=2 non-failing deviations (short/zero reads) without error; GenerateKey(nil). Entry points GenerateKey, SignHashed, SignZa, Sign; for SignHashed also after a candidate rejected late (r=0, r+k=n, s=0 - digest resp. key solved). Oracle: io.ReadFull semantics simulated on the same script: failure before a complete acceptable candidate => err!=nil and no public key/signature; otherwise output identical to a perfect reader on the same bytes (and to sm2ref). Shape=(entry, rejected prefix, failure kind, offset)")
+	r := vx.Begin("C19", "failing-rand", "scripted io.Reader: per Read call one answer from {full; short k (k in 1,16,31); zero bytes nil; k bytes+error (k in 0,1,16,31); k bytes+EOF; full+error}. Enumerated: every position of the first failure = (draw index j in 0..3 after j rejected candidates from {0,n,n-1(keygen),max}) x (byte offset 0,1,16,31 via a preceding short read, and full+error) x failure kind; every script of <=2 non-failing deviations (short/zero reads) without error; stalls of m consecutive empty reads, m in {3..1000} [thorough: 4096, 100000], at byte offset 0/1/31 of draw 0/1, followed by data / error / EOF; runs of m rejected candidates, m in {8..1000}, followed by an acceptable one / an error / EOF; GenerateKey(nil). Entry points GenerateKey, SignHashed, SignZa, Sign; for SignHashed also after a candidate rejected late (r=0, r+k=n, s=0 - digest resp. key solved). Oracle: io.ReadFull semantics simulated on the same script: failure before a complete acceptable candidate => err!=nil and no public key/signature; otherwise output identical to a perfect reader on the same bytes (and to sm2ref). Shape=(entry, rejected prefix, failure kind, offset)")
 	defer r.End()
 	selfCheck()
 	if raw, ok := vx.Replay("failing-rand"); ok {
@@ -315,6 +315,57 @@ func TestVX_C19(t *testing.T) {
 						s2[p1], s2[p2] = d1, d2
 						run(c19case{Fn: fn, Cands: cands, Script: s2, Shape: fmt.Sprintf("dev2:%d:%s:%d:%s", p1, d1, p2, d2)})
 					}
+				}
+			}
+		}
+		// long runs of one deviation: m empty reads (0, nil) in a row at byte offset off of draw j - legal for an io.Reader,
+		// io.ReadFull just keeps reading - followed by (a) the rest of the data, (b) an error, (c) EOF; and m one-byte reads
+		stalls := []int{3, 10, 31, 32, 33, 99, 100, 101, 128, 255, 256, 1000}
+		if vx.Thorough() {
+			stalls = append(stalls, 4096, 100000)
+		}
+		for _, m := range stalls {
+			for _, off := range []int{0, 1, 31} {
+				for j := 0; j <= 1; j++ {
+					for _, after := range []string{"full", "err:0", "eof:0", "err:1"} {
+						script := make([]string, 0, m+4)
+						for i := 0; i < j; i++ {
+							script = append(script, "full")
+						}
+						if off > 0 {
+							script = append(script, fmt.Sprintf("short:%d", off))
+						}
+						for i := 0; i < m; i++ {
+							script = append(script, "zero")
+						}
+						script = append(script, after)
+						cs := c19case{Fn: fn, Cands: append(append([]string{}, rejs[fn][:j]...), "ok1", "ok2"), Script: script, Shape: fmt.Sprintf("stall%d:off%d:draw%d:%s", m, off, j, after)}
+						n++
+						if vx.MineIdx(n) {
+							c19eval(r, cs)
+						}
+					}
+				}
+			}
+		}
+		// long prefixes of rejected candidates (the loop must keep drawing), then a failure resp. an acceptable candidate
+		for _, m := range []int{8, 31, 32, 33, 64, 100, 256, 1000} {
+			for _, tail := range []string{"ok", "err:0", "eof:16"} {
+				cands := make([]string, 0, m+2)
+				for i := 0; i < m; i++ {
+					cands = append(cands, rejs[fn][i%len(rejs[fn])])
+				}
+				script := []string(nil)
+				if tail != "ok" {
+					for i := 0; i < m; i++ {
+						script = append(script, "full")
+					}
+					script = append(script, tail)
+				}
+				cs := c19case{Fn: fn, Cands: append(cands, "ok1", "ok2"), Script: script, Shape: fmt.Sprintf("rejected-run%d:%s", m, tail)}
+				n++
+				if vx.MineIdx(n) {
+					c19eval(r, cs)
 				}
 			}
 		}
